@@ -152,10 +152,10 @@ func (c *VirtualTable) Disconnect() error {
 	if err := toSqlite(c.common.Disconnect()); err != nil {
 		return err
 	}
-	if c.module.sc.ctxCancel != nil {
-		c.module.sc.ctxCancel()
-		c.module.sc.ctxCancel = nil
-	}
+	// The context belongs to the connection, not to this table: other
+	// tables of the connection keep using it. Release the old one and leave
+	// a live one carrying the same deadline and write time.
+	c.module.sc.ResetContext()
 
 	return nil
 }
